@@ -259,12 +259,21 @@ impl<T> AtomicBucket<T> {
         // The current tail may simply be a fresh block that has not been written to yet, and it
         // can sit in front of any number of blocks whose slots have all been claimed but not
         // written yet, so we walk the chain until we find a completed write or run out of blocks.
+        #[cfg(metrics_verif)]
+        let mut verif_first_block = true;
         while !block_ptr.is_null() {
             let block = unsafe { block_ptr.deref() };
+            #[cfg(metrics_verif)]
+            {
+                verif_yield(if verif_first_block { 521 } else { 508 });
+                verif_first_block = false;
+            }
             if block.has_completed_writes() {
                 return false;
             }
 
+            #[cfg(metrics_verif)]
+            verif_yield(507);
             block_ptr = block.next.load(Ordering::Acquire, guard);
         }
 
